@@ -8,17 +8,22 @@
     <=4 attempts (thorough; a smaller bound in the quick tier): RebuildOK (previous snapshot + captured
     segments = live database at every successful attempt), NoSegmentAfterFailure, ResetDetected,
     NoSpuriousReset, NoRecapture, ArmedSane, SegWellFormed.  One negative control per switch
-    (DisarmOnTruncate, ArmOnAllMoved, ResumeFromArmed, ResetBySalt, CancelOnError, BusyKeepsState).
+    (DisarmOnTruncate, ArmOnAllMoved, ResumeFromArmed, ResetBySalt, CancelOnError, BusyKeepsState);
+    each counterexample is a witness schedule that is replayed on the real code.
 (B) CheckpointGen.tla emits, for every distinct reachable state of the model, a shortest schedule to
-    it followed by a checkpoint attempt; plus seeded random schedules beyond the exhaustive bound
-    (4 pages, 3 readers, up to 24 steps).  Each schedule is replayed on a REAL SQLite database in WAL
-    mode through db.SwappableDB / CheckpointManager / snapshot.StagingDir exactly as the store wires
-    them, with real read transactions on separate connections as readers.
+    it followed by a checkpoint attempt; plus the witnesses, plus seeded random schedules beyond the
+    exhaustive bound (4 pages, 3 readers, up to 24 steps).  Each schedule is replayed on a REAL SQLite
+    database in WAL mode, readers being real read transactions on separate connections:
+      db layer    db.SwappableDB / CheckpointManager / snapshot.StagingDir as the store wires them,
+                  rebuild = previous snapshot's file + every staged segment through db.ReplayWAL;
+      store layer a real single-node store.Store: Store.Execute, Store.Snapshot -> the real
+                  fsmSnapshot (segment Cancel / Close) -> Persist; rebuild = snapshot.Restore of the
+                  snapshot store's newest snapshot.
 (C) every step (schedule step, ckpt.* hook events of the manager, and after each attempt the meta, the
-    exported watch state, the staged files, the new segment's frames, the live database and the
-    database rebuilt from the previous snapshot + all staged segments via db.ReplayWAL) is one trace
-    line; TraceCheckpoint.tla replays Checkpoint.tla's actions over it, binding SQLite's choices from
-    the log, and names every departure of the real code from the design / every false invariant."""
+    exported watch state, the segment files on disk, the new segment's frames, the live database and
+    the rebuilt database) is one trace line; TraceCheckpoint.tla replays Checkpoint.tla's actions over
+    it, binding SQLite's choices from the log, and names every departure of the real code from the
+    design and every invariant that is false in the state the real run reached."""
 import concurrent.futures as cf
 import json
 import os
@@ -31,8 +36,8 @@ import vlib
 
 LEVEL = "model_checking"
 TECHNIQUE = ("TLA+ spec of SQLite WAL/checkpoint semantics + rqlite CheckpointManager/store segment handling; TLC "
-             "exhaustive + negative controls; TLC-generated and random schedules replayed on real SQLite with real "
-             "readers, every step validated by a trace spec")
+             "exhaustive + negative controls; TLC-generated, witness and random schedules replayed on real SQLite "
+             "(db layer and a real single-node store) with real readers, every step validated by a trace spec")
 
 SWITCHES = (("DisarmOnTruncate", "NoSpuriousReset"), ("ArmOnAllMoved", "RebuildOK"), ("ResumeFromArmed", "NoRecapture"),
             ("ResetBySalt", "ResetDetected"), ("CancelOnError", "NoSegmentAfterFailure"), ("BusyKeepsState", "RebuildOK"))
@@ -48,7 +53,7 @@ def _wrapped_counts(out):
 
 def model_check(ctx):
     if ctx.thorough:
-        r = vlib.tlc_mc(ctx, "Checkpoint", "Checkpoint_mc.cfg", workers=6, timeout=3000, heap="12g")
+        r = vlib.tlc_mc(ctx, "Checkpoint", "Checkpoint_mc.cfg", workers=6, timeout=3300, heap="12g")
     else:
         r = vlib.tlc_mc(ctx, "Checkpoint", "Checkpoint_mc_quick.cfg", workers=3, timeout=900)
     w = dict(r["actions"])
@@ -57,19 +62,43 @@ def model_check(ctx):
     if dead:
         raise vlib.Undecided("vacuous actions in Checkpoint: %s" % dead)
     ctx.cov["tlc_models"][-1]["actions"] = w
-    ctx.cov["exhaustive_bound"] = ("3 pages, <=4 writes, 2 readers / <=4 reader starts at every position, <=4 attempts"
+    ctx.cov["exhaustive_bound"] = ("3 pages (up to renaming), <=4 writes, 2 readers / <=4 reader starts at every position, <=4 attempts"
                                    if ctx.thorough else "2 pages, <=3 writes, 2 readers / <=2 reader starts, <=3 attempts (quick tier)")
 
 
+def allpoints(ctx):
+    # readers moving at every step of an attempt (not only between attempts and right before the SQLite
+    # call), and no page-order symmetry breaking: the two reductions of Checkpoint_mc.cfg switched off
+    vlib.tlc_mc(ctx, "Checkpoint", "Checkpoint_mc_allpoints.cfg", workers=2, timeout=3000, coverage=False)
+
+
+def _ops(o):
+    return [{k: v for k, v in op.items() if v not in (0, [])} for op in o["ops"]]
+
+
 def controls(ctx):
+    """negative controls; returns the witness schedules {switch: ops}"""
     def one(sw_inv):
         sw, inv = sw_inv
-        vlib.tlc_neg(ctx, "Checkpoint", "Checkpoint_neg_%s.cfg" % sw, expect=inv, workers=1, timeout=900, heap="3g")
+        r = vlib.tlc_neg(ctx, "CheckpointGen", "Checkpoint_neg_%s.cfg" % sw, expect="W" + inv, workers=1, timeout=1200, heap="3g")
+        m = re.search(r'^<<"@@W", (".*")>>$', r["out"], re.M)
+        if not m:
+            raise vlib.Undecided("negative control %s printed no witness schedule" % sw)
+        return sw, _ops(json.loads(json.loads(m.group(1))))
     with cf.ThreadPoolExecutor(max_workers=ctx.pick(6, 3)) as ex:     # tiny models: the JVM start dominates
-        list(ex.map(one, SWITCHES))
-    if ctx.thorough:
-        # readers moving at every step of an attempt (not only between attempts and right before the SQLite call)
-        vlib.tlc_mc(ctx, "Checkpoint", "Checkpoint_mc_allpoints.cfg", workers=2, timeout=1800, coverage=False)
+        wit = dict(ex.map(one, SWITCHES))
+    ctx.cov["witnesses"] = {sw: " ".join(o["op"] + (str(o.get("r", "")) if "r" in o else "") + ("".join(map(str, o.get("pages", []))))
+                                         for o in ops) for sw, ops in wit.items()}
+    return wit
+
+
+def generate(ctx):
+    gen = "Checkpoint_gen.cfg" if ctx.thorough else "Checkpoint_gen_quick.cfg"
+    cases, r = vlib.tlc_cases(ctx, "CheckpointGen", gen, timeout=2400, heap="6g")
+    if not cases:
+        raise vlib.Undecided("the generator produced no schedule")
+    ctx.cov["schedules_generated"] = len(cases)
+    return [_ops(c) for c in cases]
 
 
 # ------------------------------------------------------------------ replay + trace validation
@@ -142,43 +171,14 @@ def _validate(ctx, path, tag, selftest=False):
             for first, rr in reversed(starts):
                 if first <= line:
                     rid = rr[0].get("run")
-                    e = flagged.setdefault(rid, {"names": {}, "rows": rr, "first": first})
+                    e = flagged.setdefault(rid, {"names": {}, "rows": rr, "first": first, "layer": rr[0].get("layer", "db")})
                     e["names"].setdefault(name, line - first)
                     break
     r["n"] = nreal
     return r, rows, flagged
 
 
-def replay(ctx):
-    gen = "Checkpoint_gen.cfg" if ctx.thorough else "Checkpoint_gen_quick.cfg"
-    cases, r = vlib.tlc_cases(ctx, "CheckpointGen", gen, timeout=1800, heap="6g")
-    if not cases:
-        raise vlib.Undecided("the generator produced no schedule")
-    ctx.cov["schedules_generated"] = len(cases)
-    cap = ctx.pick(800, 10 ** 9)
-    if len(cases) > cap:
-        rnd = random.Random(ctx.seed)
-        keep = sorted(rnd.sample(range(len(cases)), cap))
-        cases = [cases[i] for i in keep]
-    ctx.cov["schedules_replayed_from_spec"] = len(cases)
-    sched = os.path.join(ctx.scratch, "ckpt.sched.ndjson")
-    vlib.write_nd(sched, [{"id": "spec-%d" % i, "ops": [{k: v for k, v in op.items() if v not in (0, [])} for op in c["ops"]]}
-                          for i, c in enumerate(cases)])
-    shards = ctx.pick(4, 5)
-    nrand = ctx.pick(160, 4000)
-    tmp = _tmp_root(ctx)
-    try:
-        def shard(i):
-            out = os.path.join(ctx.scratch, "ckpt.trace.%d.ndjson" % i)
-            p = ctx.run_harness(["ckpt-replay", "-in", sched, "-shard", str(i), "-of", str(shards), "-out", out,
-                                 "-random", str(nrand // shards), "-len", "24", "-np", "4", "-readers", "3"],
-                                timeout=ctx.pick(600, 3000), env={"TMPDIR": tmp})
-            return out, json.loads(p.stdout.strip().splitlines()[-1])
-        with cf.ThreadPoolExecutor(max_workers=shards) as ex:
-            res = list(ex.map(shard, range(shards)))
-    finally:
-        if tmp.startswith("/dev/shm"):
-            shutil.rmtree(tmp, ignore_errors=True)
+def _merge_stats(res):
     tot = {}
     for _, st in res:
         for k, v in st.items():
@@ -190,22 +190,62 @@ def replay(ctx):
                     d[kk] = d.get(kk, 0) + vv
             elif isinstance(v, list):
                 tot.setdefault(k, []).extend(v)
-    ctx.cov["driver"] = tot
     if tot.get("harness_errors"):
         raise vlib.Undecided("replayer failed on %d schedule(s): %s" % (len(tot["harness_errors"]), tot["harness_errors"][:3]))
+    return tot
+
+
+def _drive(ctx, cmd, sched, shards, nrand, rlen, tag, timeout):
+    """run one harness command over the schedule file in `shards` processes; returns [(trace, stats)]"""
+    tmp = _tmp_root(ctx)
+    try:
+        def shard(i):
+            out = os.path.join(ctx.scratch, "%s.trace.%d.ndjson" % (tag, i))
+            p = ctx.run_harness([cmd, "-in", sched, "-shard", str(i), "-of", str(shards), "-out", out,
+                                 "-random", str(nrand // shards), "-len", str(rlen), "-np", "4", "-readers", "3"],
+                                timeout=timeout, env={"TMPDIR": tmp})
+            return out, json.loads(p.stdout.strip().splitlines()[-1])
+        with cf.ThreadPoolExecutor(max_workers=shards) as ex:
+            return list(ex.map(shard, range(shards)))
+    finally:
+        if tmp.startswith("/dev/shm"):
+            shutil.rmtree(tmp, ignore_errors=True)
+
+
+def replay(ctx, wit, cases):
+    rnd = random.Random(ctx.seed)
+    cap = ctx.pick(700, 10 ** 9)
+    if len(cases) > cap:
+        cases = [cases[i] for i in sorted(rnd.sample(range(len(cases)), cap))]
+    ctx.cov["schedules_replayed_from_spec"] = len(cases)
+    witl = [{"id": "witness-%s" % sw, "ops": ops} for sw, ops in sorted(wit.items())]
+    sched = os.path.join(ctx.scratch, "ckpt.sched.ndjson")
+    vlib.write_nd(sched, witl + [{"id": "spec-%d" % i, "ops": ops} for i, ops in enumerate(cases)])
+    # the store layer costs ~1-2 s per schedule (a raft node is started for each): witnesses, a sample, random ones
+    nst = ctx.pick(10, 300)
+    ssched = os.path.join(ctx.scratch, "ckpt.store.sched.ndjson")
+    vlib.write_nd(ssched, witl + [{"id": "spec-%d" % i, "ops": cases[i]} for i in sorted(rnd.sample(range(len(cases)), min(nst, len(cases))))])
+    with cf.ThreadPoolExecutor(max_workers=2) as ex:
+        fdb = ex.submit(_drive, ctx, "ckpt-replay", sched, ctx.pick(3, 5), ctx.pick(150, 4000), 24, "ckpt", ctx.pick(900, 3000))
+        fst = ex.submit(_drive, ctx, "ckpt-store", ssched, ctx.pick(3, 4), ctx.pick(9, 300), 12, "ckpt.store", ctx.pick(900, 3000))
+        res, sres = fdb.result(), fst.result()
+    tot, stot = _merge_stats(res), _merge_stats(sres)
+    ctx.cov["driver"] = tot
+    ctx.cov["driver_store_layer"] = stot
     for o in ("truncated", "busy", "allmoved"):
-        if not tot.get("outcomes", {}).get(o):
+        if not tot.get("outcomes", {}).get(o) or not stot.get("outcomes", {}).get(o):
             raise vlib.Undecided("checkpoint outcome %r never occurred in the replay (vacuous run)" % o)
-    if not tot.get("wal_restarts"):       # observed on the WAL file itself, not through the code under test
+    if not tot.get("wal_restarts") or not stot.get("wal_restarts"):       # observed on the WAL file itself, not through the code under test
         raise vlib.Undecided("SQLite never restarted the WAL in the replay (vacuous run)")
 
-    # trace validation: the shards are concatenated into `groups` files (one JVM each, started together)
+    # trace validation: the traces are concatenated into `groups` files (one JVM each, started together)
     groups = ctx.pick(1, 3)
     files = []
+    allres = sres + res
     for g in range(groups):
         gp = os.path.join(ctx.scratch, "ckpt.group.%d.ndjson" % g)
         with open(gp, "w") as f:
-            for i, (out, _) in enumerate(res):
+            for i, (out, _) in enumerate(allres):
                 if i % groups == g:
                     f.write(open(out).read())
         files.append(gp)
@@ -215,16 +255,16 @@ def replay(ctx):
     for r, rows, fl in vals:
         ctx.add("trace_events", r["n"])
         flagged.update(fl)
-    ctx.add("traces_validated_against_impl", tot["runs"])
-    rows0 = vals[0][1]
-    for first, rr in _runs(rows0)[3:5]:
-        ctx.sample([{k: v for k, v in x.items() if k != "ops"} for x in rr[:14]])
+    ctx.add("traces_validated_against_impl", tot["runs"] + stot["runs"])
+    rr = _runs(vals[0][1])
+    for first, run in rr[:1] + rr[len(rr) // 2:len(rr) // 2 + 1]:
+        ctx.sample([{k: v for k, v in x.items() if k != "ops"} for x in run[:14]])
 
     model_defects = {rid: e for rid, e in flagged.items() if any(n.startswith(("sqlite:", "harness:")) for n in e["names"])}
     if model_defects:
         rid, e = sorted(model_defects.items())[0]
-        raise vlib.Undecided("the model of SQLite / the replayer disagrees with the real run %s: %s\nschedule: %s"
-                             % (rid, sorted(e["names"]), json.dumps(e["rows"][0].get("ops"))))
+        raise vlib.Undecided("the model of SQLite / the replayer disagrees with the real run %s (%s layer): %s\nschedule: %s"
+                             % (rid, e["layer"], sorted(e["names"]), json.dumps(e["rows"][0].get("ops"))))
     if flagged:
         confirm(ctx, flagged)
 
@@ -236,52 +276,65 @@ def confirm(ctx, flagged):
     byname = {}
     for rid, e in flagged.items():
         for n in e["names"]:
-            byname.setdefault(n, []).append((len(e["rows"][0]["ops"]), rid))
-    ids = sorted({rid for n, l in byname.items() for _, rid in sorted(l)[:2]})[:80]
+            byname.setdefault((e["layer"], n), []).append((len(e["rows"][0]["ops"]), rid))
+    chosen = {k: [rid for _, rid in sorted(l)[:2]] for k, l in byname.items()}
+    ids = sorted({rid for l in chosen.values() for rid in l})[:80]
     ctx.cov["flagged_runs"] = len(flagged)
-    sched = os.path.join(ctx.scratch, "ckpt.confirm.ndjson")
-    vlib.write_nd(sched, [{"id": rid, "ops": flagged[rid]["rows"][0]["ops"]} for rid in ids])
-    out = os.path.join(ctx.scratch, "ckpt.confirm.trace.ndjson")
-    tmp = _tmp_root(ctx)
-    try:
-        ctx.run_harness(["ckpt-replay", "-in", sched, "-out", out, "-np", "4"], timeout=900, env={"TMPDIR": tmp})
-    finally:
-        if tmp.startswith("/dev/shm"):
-            shutil.rmtree(tmp, ignore_errors=True)
-    _, _, again = _validate(ctx, out, "confirmation run")
-    keep = os.path.join(vlib.ROOT, "replays", ctx.pid)
+    again = {}
+    for layer, cmd in (("db", "ckpt-replay"), ("store", "ckpt-store")):
+        lids = [rid for rid in ids if flagged[rid]["layer"] == layer]
+        if not lids:
+            continue
+        sched = os.path.join(ctx.scratch, "ckpt.confirm.%s.ndjson" % layer)
+        vlib.write_nd(sched, [{"id": rid, "ops": flagged[rid]["rows"][0]["ops"]} for rid in lids])
+        out = os.path.join(ctx.scratch, "ckpt.confirm.%s.trace.ndjson" % layer)
+        tmp = _tmp_root(ctx)
+        try:
+            ctx.run_harness([cmd, "-in", sched, "-out", out, "-np", "4"], timeout=1800, env={"TMPDIR": tmp})
+        finally:
+            if tmp.startswith("/dev/shm"):
+                shutil.rmtree(tmp, ignore_errors=True)
+        again.update(_validate(ctx, out, "confirmation run (%s layer)" % layer)[2])
     for rid in ids:
         e = flagged[rid]
-        names = {n: off for n, off in e["names"].items() if n.startswith(("ckpt:", "inv:"))}
+        names = {n: off for n, off in e["names"].items() if n.startswith(("ckpt:", "inv:")) and rid in chosen[(e["layer"], n)]}
         rep = again.get(rid, {"names": {}})["names"]
         missing = [n for n in names if n not in rep]
         if missing:
             raise vlib.Undecided("flag(s) %s of run %s did not reproduce on a fresh replay" % (missing, rid))
         byline = {}
         for n, off in names.items():
-            if rid in [x for _, x in sorted(byname[n])[:2]]:
-                byline.setdefault(off, []).append(n)
+            byline.setdefault(off, []).append(n)
         for off, ns in sorted(byline.items()):
             ck = sorted(n for n in ns if n.startswith("ckpt:"))
             for n in (ck or sorted("ckpt:invariant:" + x[4:] for x in ns)):
-                os.makedirs(keep, exist_ok=True)
-                art = {"schedule": e["rows"][0]["ops"], "run": rid, "failed_condition": n, "at_step": e["rows"][off],
+                key = n if e["layer"] == "db" else n.replace("ckpt:", "ckpt:store-layer:", 1)
+                art = {"schedule": e["rows"][0]["ops"], "run": rid, "layer": e["layer"], "failed_condition": n, "at_step": e["rows"][off],
                        "trace": [{k: v for k, v in x.items() if k != "ops"} for x in e["rows"][:off + 1]],
-                       "replay": "verifh ckpt-replay -in <file with {id, ops}> -out trace.ndjson; TLC TraceCheckpoint"}
-                ctx.violation(n, "checkpoint schedule %s: condition %s is false on the real run (line %d of the run)"
-                              % (json.dumps(e["rows"][0]["ops"]), n, off + 1), art)
+                       "replay": "verifh %s -in <ndjson file with {id, ops}> -out trace.ndjson; then TLC on TraceCheckpoint.tla"
+                                 % ("ckpt-replay" if e["layer"] == "db" else "ckpt-store")}
+                ctx.violation(key, "checkpoint schedule %s (%s layer): condition %s is false on the real run (line %d of the run)"
+                              % (json.dumps(e["rows"][0]["ops"]), e["layer"], n, off + 1), art)
 
 
 def run(ctx):
     ctx.harness()
-    with cf.ThreadPoolExecutor(max_workers=3) as ex:
-        fs = [ex.submit(model_check, ctx), ex.submit(controls, ctx), ex.submit(replay, ctx)]
+    with cf.ThreadPoolExecutor(max_workers=5) as ex:
+        fmc = ex.submit(model_check, ctx)
+        fall = ex.submit(allpoints, ctx) if ctx.thorough else None
+        fwit = ex.submit(controls, ctx)
+        fgen = ex.submit(generate, ctx)
         errs = []
-        for f in fs:
-            try:
-                f.result()
-            except vlib.Undecided as e:
-                errs.append(e)
+        try:
+            replay(ctx, fwit.result(), fgen.result())
+        except vlib.Undecided as e:
+            errs.append(e)
+        for f in (fmc, fall):
+            if f is not None:
+                try:
+                    f.result()
+                except vlib.Undecided as e:
+                    errs.append(e)
         if errs:
             raise errs[0]
     ctx.cov["exhaustive"] = True
@@ -290,6 +343,9 @@ def run(ctx):
         "versioned pages: page k = single-row table p_k with its own root page; one write = one transaction of UPDATE p_k SET v=<n>",
         "the SQLite half of the model (restart rule, mxSafeFrame, read-lock 0 readers) is itself checked against real SQLite on every "
         "replayed step; a disagreement makes the check undecided, never a violation",
-        "the store's segment handling is the incremental branch of fsmSnapshot re-enacted with the real StagingDir/WALWriter objects "
-        "(CreateWAL, Cancel on error, Close on success); Persist/sink handling is C04/C09",
+        "db layer: the store's segment handling is the incremental branch of fsmSnapshot re-enacted with the real StagingDir/WALWriter "
+        "objects; store layer: the real Store.fsmSnapshot through Store.Snapshot on a single-node raft",
+        "model checking reductions: readers move between attempts and right before the SQLite call (they commute with the other "
+        "steps), pages are first written in index order (behaviours are symmetric under page renaming up to the frame order inside "
+        "one transaction); Checkpoint_mc_allpoints.cfg checks a smaller bound without both reductions",
     ]
